@@ -273,6 +273,22 @@ KERNELS += [
                 (r'\berror\("[^"]*"\);', "K_THROW();", 1)] + SUCC),
 ]
 
+# ---- where the layout description comes from: the constructor of ProjDataInMemory and ProjDataFromStream::activate_TOF ----
+LAYRULES = [(r"proj_data_info_sptr->get_(min|max)_segment_num\(\)", r"self->\1_seg", 2), (r"proj_data_info_sptr->get_(min|max)_tof_pos_num\(\)", r"self->\1_tof", 2),
+            (r"proj_data_info_sptr->get_num_tof_poss\(\)", "self->num_tof", 1), (r"get_num_axial_poss\(segment_num\)", "K_num_ax(self, segment_num)", 1),
+            (r"get_num_views\(\)", "NV(self)", 1), (r"get_num_tangential_poss\(\)", "NT(self)", 1), (r"static_cast<streamoff>\(", "CAST(long, ", 1),
+            (r"(?<![\w>.])offset_3d_data =", "self->offset_3d_data =", 1), (r"timing_poss_sequence\.resize\(([^;]*)\);", r"TSEQ_RESIZE(self, \1);", 1),
+            (r"timing_poss_sequence\[(\w+)\] = (\w+);", r"TSEQ_WRITE(self, \1, \2);", 1)]
+KERNELS += [
+    dict(name="K_pdm_ctor_layout", file=PDM, cxx_name="ProjDataInMemory constructor: size of one TOF block and the TOF sequence (from 'int sum = 0;')",
+         func=r"ProjDataInMemory::ProjDataInMemory\(shared_ptr<const ExamInfo> const& exam_info_sptr,\s*shared_ptr<const ProjDataInfo> const& proj_data_info_ptr,\s*const bool initialise_with_0\)",
+         span=(r"int sum = 0;", r"timing_poss_sequence\[i\] = timing_pos_num;\s*\}"), c_header="void K_pdm_ctor_layout(struct PD* self)", loops=2, rules=LAYRULES),
+    dict(name="K_pds_activate_TOF", file=PDS, cxx_name="ProjDataFromStream::activate_TOF", func=r"ProjDataFromStream::activate_TOF\(\)",
+         c_header="void K_pds_activate_TOF(struct PD* self)", loops=2,
+         rules=[(r'\berror\("[^"]*"\);', "K_THROW();", 1)] + LAYRULES
+               + [(r"on_disk_data_type\.size_in_bytes\(\)", "(unsigned long)self->elsize", 1), (r"(?<![\w>.])storage_order\b", "self->storage_order", 6)]),
+]
+
 CHK = ["--signed-overflow-check", "--div-by-zero-check", "--bounds-check", "--pointer-check", "--conversion-check"]
 VT = {"quick": [(1, 2), (3, 5), (4, 4), (8, 16)],
       "thorough": [(v, t) for v in range(1, 9) for t in range(1, 9)] + [(8, 16), (16, 8), (12, 20), (32, 64), (96, 128)]}
@@ -314,6 +330,11 @@ def jobs(tier, gen_dir):
               "K_pd_fill_value", "K_pd_fill_from"):
         J(k, "h_" + k, enforce=k, lc=True, kernels=[k])
     for V, T in PATH_VT[tier]:
+        J("K_pdm_ctor_layout/V=%d/T=%d" % (V, T), "h_K_pdm_ctor_layout", enforce="K_pdm_ctor_layout", lc=True, defs={"C02_V": V, "C02_T": T}, kernels=["K_pdm_ctor_layout"],
+          params={"num_views": V, "num_tangential_poss": T})
+        J("K_pds_activate_TOF/V=%d/T=%d/E=4" % (V, T), "h_K_pds_activate_TOF", enforce="K_pds_activate_TOF", lc=True, defs={"C02_V": V, "C02_T": T, "C02_E": 4},
+          kernels=["K_pds_activate_TOF"], params={"num_views": V, "num_tangential_poss": T, "bytes_per_element": 4})
+    for V, T in PATH_VT[tier]:
         d = {"C02_V": V, "C02_T": T}
         for k, lc in (("K_pdm_set_viewgram", True), ("K_pdm_get_viewgram", True), ("K_pdm_set_sinogram", False), ("K_pdm_get_sinogram", False),
                       ("K_pdm_get_bin_value", False), ("K_pdm_set_bin_value", False), ("K_pdm_set_segment", False), ("K_pdm_get_segment", False)):
@@ -344,7 +365,7 @@ def jobs(tier, gen_dir):
                        backend="kissat"))
     # vacuity canaries of the access-path kernels (their preconditions must be satisfiable)
     IDX, OFF = ["K_pdm_get_index"], ["K_pds_get_offset"]
-    CAN = [("K_pd_set_segment_by_view", []), ("K_pd_get_segment_by_view", []), ("K_pd_set_related_viewgrams", []), ("K_pd_fill_value", []), ("K_pd_fill_from", [])]
+    CAN = [("K_pdm_ctor_layout", []), ("K_pds_activate_TOF", []), ("K_pd_set_segment_by_view", []), ("K_pd_get_segment_by_view", []), ("K_pd_set_related_viewgrams", []), ("K_pd_fill_value", []), ("K_pd_fill_from", [])]
     CAN += [(k, IDX) for k in ("K_pdm_set_viewgram", "K_pdm_get_viewgram", "K_pdm_set_sinogram", "K_pdm_get_sinogram", "K_pdm_get_bin_value", "K_pdm_set_bin_value",
                                "K_pdm_set_segment", "K_pdm_get_segment")]
     CAN += [(k, OFF) for k in ("K_pds_set_bin_value", "K_pds_set_viewgram", "K_pds_set_sinogram", "K_pds_get_bin_value", "K_pds_get_viewgram", "K_pds_get_sinogram")]
@@ -359,7 +380,8 @@ def jobs(tier, gen_dir):
 
 TRUSTED = [
     "segment_sequence and timing_poss_sequence are permutations of the segment / TOF ranges and offset_3d_data is the size of one TOF block "
-    "(established by the constructors / activate_TOF / set_timing_poss_sequence_in_stream; assumed as PD_VALID_CORE)",
+    "(PD_VALID_CORE: the TOF part and offset_3d_data are proved for the ProjDataInMemory constructor and ProjDataFromStream::activate_TOF - kernels K_pdm_ctor_layout / "
+    "K_pds_activate_TOF - up to 'the sum over the segments does not depend on their order'; segment_sequence given by the caller / set_timing_poss_sequence_in_stream: assumed)",
     "std::find modelled by K_find_int (verified against its own contract)",
 ]
 ASSUMPTIONS = ["parametric: numbers of views and tangential positions and the element size are constants per job; at most 8 segments and 8 TOF bins; "
